@@ -127,7 +127,10 @@ pub proof fn lemma_pair_is_round_mag(n: int, k: int, q: int, r: u8, tail: int, m
     lemma_pow10_succ(k - 1);
     let t = tail + p * r;
     assert(0 <= t < 10 * p) by (nonlinear_arith) requires 0 <= tail < p, 0 <= r <= 9, t == tail + p * r;
-    assert(n == t + (10 * p) * q);
+    assert(pow10(k) * q == (10 * p) * q);
+    assert(n == (10 * p) * q + t);
+    assert(10 * p != 0);
+    assert(n == q * (10 * p) + t) by (nonlinear_arith) requires n == (10 * p) * q + t;
     lemma_fundamental_div_mod_converse(n, 10 * p, q, t);
     assert(n / pow10(k) == q && n % pow10(k) == t);
     assert((t == 0) == (r == 0 && tail == 0)) by (nonlinear_arith) requires 0 <= tail < p, 0 <= r <= 9, t == tail + p * r, p > 0;
